@@ -22,3 +22,5 @@ def run(ctx, rep):
     from ..rules import more4
     more4.rule_ptr_shift(mod, rep)
     more4.rule_mem_bytes(mod, rep)
+    from ..rules import more5
+    more5.rule_transpose(mod, rep)
